@@ -38,7 +38,7 @@ type Gen struct {
 	hostSalt string
 }
 
-var fabBases = []string{"d", "D", "d-go", "go-d", "d.v2", "v2", "1d", "für", "if", "len", "fmt", "rand", "x", "err", "int", "pkg", "d1", "d0", "template", "d_"}
+var fabBases = []string{"d", "D", "d-go", "go-d", "d.v2", "v2", "1d", "für", "if", "len", "fmt", "rand", "x", "err", "int", "pkg", "d1", "d0", "template", "d_", "_2fa", "é3d", "-9p", ".hidden", "UPPER"}
 var fabHosts = []string{"a.example", "b.example/x", "c.example/y/z", "d.example"}
 
 // stdPool: standard-library paths with their real package names (verified against
